@@ -1,6 +1,8 @@
 """C12 — cloned framers run like their originals and never share relative state; rear / raze.
 
 Lemmas    lean/IofloModel/Lemmas/Clones.lean, ClonesLeaf.lean (name-free stand-alone interpreter + refinement proof),
+          ClonesTree.lean (the same for trees of framers: a framer with auxiliaries below it to any depth, by
+          induction over the Ops level),
           ClonesRaze.lean (exact effect of raze / rear)
 Model     lean/IofloModel/Model/Clones.lean   (Framer.clone / Frame.clone / Act.clone, Framer.resolveMoots, newMootTag /
           newAuxTag, House.presolvePresolvables / resolveResolvables, Frame.resolveAuxLinks, Rearer / Razer / Framer.prune,
@@ -1023,16 +1025,26 @@ class CHECK(core.Check):
                "(driver engine 'clones')",
                "clause text -> relative path (Builder.parseIndirect) is taken from C13; tokenizer C16; literals C17",
                "CPython copy.deepcopy, odict order, str.join/split"]
-    PARTIAL = ["C12_clone_runs_like_original_partial / C12_clone_history_like_original_partial / C12_leaf_refines_partial / "
-               "C12_leaf_history_refines_partial / C12_leaf_refines_checkStart_partial: the behavioural clause is proved for framer objects WITHOUT auxiliaries below them whose script has no rear / "
-               "raze / aux-done need (decidable: Frame.leafy) and whose resolution map is injective (true of framer-, frame- "
-               "and actor-relative references: C12_prefix_map_resolves); for such an object every entry point enterAll / "
-               "recur / segue / exitAll / checkStart is shown equal to a name-free stand-alone interpreter, so a clone and "
-               "its original (or two clones) started in the same situation stay in the same situation and emit the same "
-               "events, whatever the rest of the house does (C12_situation_stable). NOT proved: the same for clones that "
-               "carry clones below them, rear or raze (nested clones, rear / raze at run time are tied to the code by the "
-               "correspondence and by the oracles O1 / O4 only); that Act.resolvePath on the TEXT of a reference is the "
-               "prefix map (the segment-level statement is C12_relative_path_has_own_name / _is_substituted)",
+    PARTIAL = ["behaviour, trees: C12_tree_refines_partial / C12_tree_refines_checkStart_partial / "
+               "C12_clone_tree_runs_like_original_partial / C12_tree_same_events: the behavioural clause is proved for STATIC "
+               "TREES of framer objects - a framer whose frames carry auxiliaries (clones) that carry auxiliaries ... to any "
+               "depth, at every Ops level, for entry points on any member; scripts may use every modelled act except rear / "
+               "raze, every need including `all / any is done` and `aux T is done` about child members, entry conditions and "
+               "transitions (decidable: Frame.tok); hypotheses (TreeOK): the members' resolution maps are jointly injective "
+               "(true of framer- / frame- / actor-relative references of members with dot-free names: "
+               "C12_tree_prefix_maps_ok), members are distinct objects, every child is a clone whose main frame is the frame "
+               "that lists it. A clone tree and the original's tree (or two clone trees) in one common situation take every "
+               "entry point to one common situation with the same events from the same members. NOT proved: trees that "
+               "change at run time (rear / raze inside the tree), members that address shares of other members "
+               "(`of framer main`: the joint map is then not injective) or shared absolute shares, plain ORIGINAL "
+               "auxiliaries below a clone (the relation fixes `original = false` for children); these are tied to the code "
+               "by the correspondence and the oracles O1 / O4 only. Also not proved: that Act.resolvePath on the TEXT of a "
+               "reference is the prefix map (segment level: C12_relative_path_has_own_name / _is_substituted)",
+               "behaviour, single objects (kept, with frame conditions the tree version does not carry): "
+               "C12_clone_runs_like_original_partial / C12_clone_history_like_original_partial / C12_leaf_refines_partial / "
+               "C12_leaf_history_refines_partial / C12_leaf_refines_checkStart_partial for framer objects without "
+               "auxiliaries (Frame.leafy), with C12_situation_stable, C12_leaf_touches_only_itself, "
+               "C12_leaf_clones_do_not_interfere",
                "C12_raze_leaf_clones_partial / C12_prune_leaf_clone_partial: the exact effect of raze (the named frame loses "
                "exactly the selected razeable insular clones, every other frame and every other framer object is unchanged, "
                "the selected clones end not entered and unregistered, no new name appears) is proved when the selected clones "
@@ -1071,7 +1083,9 @@ class CHECK(core.Check):
                   "touched); raze - C12_raze_selects_only_razeable_insular, C12_raze_all_first_last, C12_unregister_frees_name, "
                   "C12_pruned_name_freed, C12_freed_name_reusable, and PARTIAL (clones without auxiliaries below them) "
                   "C12_raze_leaf_clones_partial (exact effect on the whole house), C12_prune_leaf_clone_partial; behaviour "
-                  "(PARTIAL: framer objects without auxiliaries below them) - C12_leaf_refines_partial, "
+                  "(PARTIAL: static trees of framers to any depth, incl. aux-done needs) - C12_tree_refines_partial, "
+                  "C12_tree_refines_checkStart_partial, C12_clone_tree_runs_like_original_partial, C12_tree_same_events, "
+                  "C12_tree_prefix_maps_ok; (PARTIAL: single framer objects, with frame conditions) - C12_leaf_refines_partial, "
                   "C12_leaf_refines_checkStart_partial, C12_clone_runs_like_original_partial, C12_leaf_history_refines_partial, "
                   "C12_clone_history_like_original_partial (any history of calls and clock ticks: same events, same relative "
                   "shares, same control state), C12_same_events, C12_situation_stable, C12_leaf_touches_only_itself, "
@@ -1082,8 +1096,8 @@ class CHECK(core.Check):
     LEVEL_NOTE = ("Trusted: Lean kernel; axioms propext, Classical.choice, Quot.sound; hand transcription of framing.py / "
                   "acting.py / housing.py / building.py clone, rear, raze and framer-core code validated only by the "
                   "correspondence runs on /repo + fixes D12a, D12b; clause text -> relative path taken from C13; CPython "
-                  "deepcopy and dict order. The behavioural theorem covers clones without auxiliaries below them; nested "
-                  "clones and run-time rear / raze are covered by correspondence and oracle only.")
+                  "deepcopy and dict order. The behavioural theorem covers static trees of clones (any depth, aux-done needs); "
+                  "run-time rear / raze inside a tree and main-relative addressing are covered by correspondence and oracle only.")
 
     # ---- cases
     def generate(self, rng, n, tier):
